@@ -775,6 +775,9 @@ class Result(JsonSerializable):
             for i, v in enumerate(values):
                 for _ in range(v):
                     r.update(i)
+            # The updates above accumulate the choices grouped by index:
+            # put back the values in the order they were recorded
+            r._value_list = d['value_list']
 
         else:
             # Set the stored fields directly: replaying an update would
